@@ -68,8 +68,6 @@ def trace_validate(ctx, spec, trace_path, index_path, prop_default, timeout=1800
             "want": "an execution the specification allows",
             "got": "ok=%s %s" % (c.get("ok"), c.get("err", "")),
             "detail": "rejected by %s.tla" % spec})
-    ctx.states += r.get("distinct", 0)
-    ctx.transitions += r.get("generated", 0)
     return res
 
 
@@ -171,3 +169,131 @@ def c10(ctx):
     if not quick(ctx):
         edit_replay(ctx, "set_t", "C10")
     ctx.exhaustive = True
+
+
+# ------------------------------------------------------------------------------
+# Pipeline (C05 C07 C15)
+
+def live_consts(ctx):
+    rep = ctx.vh(["pipe-consts", "-property", ctx.prop], merge=False)
+    c = json.loads(rep["info"]["consts"])
+    for m in rep.get("mismatches") or []:
+        ctx.mismatches.append(m)
+    log("[live] ring slots=%(slots)d channel cap=%(cap)d sync threshold=%(thresh)d bytes -> at most %(syncmax)d buffers" % c)
+    return c
+
+
+def pipeline_model(ctx, c, nbufs, maxcalls, label, timeout=1500):
+    """M: TLC on Pipeline.tla with the constants read from the running code."""
+    # the largest buffer count the sync path can meet is always explored
+    nbufs = nbufs.rstrip("}") + ", %d}" % max(c["syncmax"], 0)
+    return ctx.tlc("Pipeline", consts={"SLOTS": c["slots"], "CAP": c["cap"], "SYNCMAX": max(c["syncmax"], 0),
+                                       "NBUFS": nbufs, "MAXCALLS": maxcalls},
+                   label=label, timeout=timeout, check=False)
+
+
+def pipeline_nonvacuity(ctx):
+    """The invariants must fail in the model exactly when CAP > SLOTS-2."""
+    for slots in (3, 4, 5):
+        for cap in range(1, slots + 1):
+            r = ctx.tlc("Pipeline", consts={"SLOTS": slots, "CAP": cap, "SYNCMAX": max(cap - 1, 0),
+                                            "NBUFS": "{0, 1, %d, %d}" % (slots + 1, 2 * slots + 1), "MAXCALLS": 1},
+                        label="sweep SLOTS=%d CAP=%d" % (slots, cap), check=False, timeout=300)
+            expect_ok = cap <= slots - 2
+            if r["ok"] != expect_ok:
+                raise Infra("Pipeline.tla sweep: SLOTS=%d CAP=%d gave ok=%s, expected %s (the model's invariants are vacuous or wrong)\n%s"
+                            % (slots, cap, r["ok"], expect_ok, r["out"][-1500:]))
+
+
+def simulated_picks(ctx, c, num, depth):
+    """Behaviours from TLC -simulate, reduced to the sequence of actors that move."""
+    import re
+    d = None
+    r = ctx.tlc("Pipeline", cfg="Pipeline_sim.cfg",
+                consts={"SLOTS": c["slots"], "CAP": c["cap"], "SYNCMAX": max(c["syncmax"], 0)},
+                workers=1, simulate="file=%s,num=%d" % (os.path.join(ctx.dir("sim"), "beh"), num),
+                extra=["-depth", str(depth), "-seed", str(ctx.seed)], label="simulate", timeout=300, check=False)
+    picks = []
+    for fn in sorted(os.listdir(ctx.dir("sim"))):
+        txt = open(os.path.join(ctx.dir("sim"), fn)).read()
+        pp = re.findall(r'ppc = "(\w+)"', txt)
+        cc = re.findall(r'cpc = "(\w+)"', txt)
+        seq = []
+        for i in range(1, min(len(pp), len(cc))):
+            if pp[i] != pp[i - 1] and pp[i] in ("presend", "sent", "acquire", "done"):
+                seq.append("P")
+            elif cc[i] != cc[i - 1] and cc[i] in ("consume", "recv", "drain", "done"):
+                seq.append("C")
+        if len(seq) > 20:
+            picks.append("".join(seq))
+    path = os.path.join(ctx.dir("sim"), "picks.txt")
+    open(path, "w").write("\n".join(picks) + "\n")
+    log("[sim] %d behaviours -> %d pick sequences" % (num, len(picks)))
+    return path, len(picks)
+
+
+def pipeline_trace_validate(ctx, c, trace_path, prop_id):
+    files = {"trace.ndjson": open(trace_path, "rb").read()}
+    r = ctx.tlc("PipelineTrace", consts={"SLOTS": c["slots"], "CAP": c["cap"], "SYNCMAX": max(c["syncmax"], 0)},
+                files=files, workers=1, timeout=1800, label="trace validation", check=False)
+    nlines = sum(1 for _ in open(trace_path))
+    res_path = os.path.join(r["dir"], "result.json")
+    inv = None
+    import re
+    m = re.search(r"Invariant (\w+) is violated", r["out"])
+    if m:
+        inv = m.group(1)
+    if inv:
+        # an invariant of Pipeline.tla failed at a step of a REAL execution
+        ctx.mismatches.append({"property": prop_id, "sig": "trace-invariant:%s" % inv, "input": os.path.basename(trace_path),
+                               "want": "invariant %s at every step of the recorded execution" % inv,
+                               "got": "violated", "detail": r["out"][-1500:]})
+        return
+    if not os.path.exists(res_path):
+        raise Infra("PipelineTrace did not complete:\n%s" % r["out"][-3000:])
+    res = json.load(open(res_path))
+    if res["consumed"] != nlines:
+        st = res.get("stuck_at", {})
+        ctx.mismatches.append({"property": prop_id, "sig": "trace-stuck:%s:%s" % (st.get("id"), st.get("e")),
+                               "input": os.path.basename(trace_path),
+                               "want": "every recorded hand-off step is a step Pipeline.tla allows",
+                               "got": "no action of the specification matches event #%d %s" % (res["consumed"] + 1, json.dumps(st)),
+                               "detail": "consumed %d of %d events" % (res["consumed"], nlines)})
+        return
+    for b in res["bad"]:
+        ctx.mismatches.append({"property": prop_id, "sig": "trace-bad:%s" % json.dumps(b), "input": os.path.basename(trace_path),
+                               "want": "conforming hand-off", "got": json.dumps(b)})
+    ctx.counters["trace_events_validated"] = ctx.counters.get("trace_events_validated", 0) + nlines
+
+
+@prop("C07")
+def c07(ctx):
+    ctx.rule = ("M: Pipeline.tla model-checked with the ring size, channel capacity and sync threshold READ FROM THE RUNNING CODE "
+                "(NoOverwrite, FIFO, EmptyWhenIdle, termination under weak fairness, every stage-1 abort x stage-2 failure position), "
+                "plus a SLOTS x CAP sweep showing the invariants fail exactly when CAP > SLOTS-2; G: the two real stage goroutines are "
+                "stepped gate by gate (verif hooks) through lagging-consumer, lagging-producer, alternating, random and TLC-simulated "
+                "schedules on irregular valid/invalid documents of 17-64 index buffers; V: every recorded hand-off trace (forced and "
+                "free-running, GOMAXPROCS 1-16, jitter) is replayed by TLC against Pipeline's actions with all invariants evaluated at "
+                "every step. Non-trivial = a run in which the producer blocked on a full channel AND the consumer on an empty one.")
+    c = live_consts(ctx)
+    q = quick(ctx)
+    m = pipeline_model(ctx, c, "{0, 1, 6, 17, 33}" if q else "{0, 1, 2, 6, 14, 15, 16, 17, 18, 33, 40, 65}", 1, "live constants")
+    model_ok = m["ok"]
+    if not model_ok:
+        log("[C07] Pipeline.tla does NOT hold with the live constants; replaying schedules to see whether the code misbehaves")
+    pipeline_nonvacuity(ctx)
+    picks, npicks = simulated_picks(ctx, c, 40 if q else 400, 400)
+    d = ctx.dir("pipe")
+    t1 = os.path.join(d, "forced.ndjson")
+    ctx.vh(["g-pipe", "-trace", t1, "-seed", str(ctx.seed), "-picks", picks, "-docs", "4" if q else "10",
+            "-random", "20" if q else "200", "-property", "C07"], timeout=3000)
+    pipeline_trace_validate(ctx, c, t1, "C07")
+    t2 = os.path.join(d, "free.ndjson")
+    ctx.vh(["v-pipe", "-family", "free", "-n", "40" if q else "400", "-trace", t2, "-seed", str(ctx.seed), "-property", "C07"], timeout=3000)
+    pipeline_trace_validate(ctx, c, t2, "C07")
+    if not q:
+        t3 = os.path.join(d, "free-race.ndjson")
+        ctx.vh(["v-pipe", "-family", "free", "-n", "60", "-trace", t3, "-seed", str(ctx.seed + 1), "-property", "C07"], race=True, timeout=3000)
+        pipeline_trace_validate(ctx, c, t3, "C07")
+    if not model_ok and not ctx.mismatches:
+        raise Infra("Pipeline.tla fails with the live constants %s but no schedule reproduced a wrong outcome on the real code:\n%s" % (c, m["out"][-2500:]))
